@@ -370,6 +370,20 @@ fn mesh_sampling(rng: &mut Rng) {
         1 => gen::sphere(rng.range(0.5, 2.0), rng.int(5, 10) as usize, rng.int(3, 6) as usize),
         _ => { let nx = rng.int(3, 7) as usize; gen::height_field(rng, nx, 4, 0.4) }
     };
+    // a scanned or repaired mesh carries the odd face with a repeated vertex (zero area, no normal) anywhere in its
+    // face list: uniform sampling never lands on it and the faces after it keep their share
+    let degenerate = rng.chance(0.3);
+    let mesh = if degenerate {
+        let mut faces = mesh.faces().to_vec();
+        for _ in 0..rng.int(1, 3) {
+            let f = faces[rng.below(faces.len())];
+            let at = rng.below(faces.len());
+            faces.insert(at, if rng.chance(0.5) { [f[0], f[0], f[1]] } else { [f[1], f[2], f[1]] });
+        }
+        Mesh::new(mesh.vertices().to_vec(), faces, false)
+    } else {
+        mesh
+    };
     let vs = mesh.vertices();
     let fs = mesh.faces();
     let normals: Vec<_> = (0..fs.len()).map(|f| mesh.tri_mesh().triangle(f as u32).normal()).collect();
@@ -403,6 +417,11 @@ fn mesh_sampling(rng: &mut Rng) {
         if !pooled {
             v.require((hits[f] as f64 - mean).abs() <= 6.0 * sd + 3.0, "sample_uniform.proportional_to_area", || format!("face {f}: {} vs {mean:.1} ± {sd:.1}", hits[f]));
         }
+    }
+    if degenerate {
+        // (dense and Poisson sampling ask every face for its normal; a face without one is outside their domain)
+        emit_oracle_only("sample.mesh", &Tok::new(), &Tok::new(), &v);
+        return;
     }
     let spacing = rng.range(0.15, 0.5);
     for sp in mesh.sample_dense(spacing) {
